@@ -30,7 +30,8 @@ Theorem btree_constants_are_model :
    C.p256_inode_vals = cfg_I 256 /\ C.p256_max_height = cfg_H /\ C.p256_sizeof_node = 256) /\
   (C.p4096_page_size = 4096 /\ C.p4096_leaf_vals = 510 /\ C.p4096_inode_vals = 255 /\ C.p4096_leaf_vals = cfg_L 4096 /\
    C.p4096_inode_vals = cfg_I 4096 /\ C.p4096_max_height = cfg_H /\ C.p4096_sizeof_node = 4096).
-Proof. repeat split; reflexivity. Qed.
+Proof. repeat split; reflexivity.
+Qed.
 Print Assumptions btree_constants_are_model.
 
 (* every accepted configuration used by the checks has INODE_VALS = LEAF_VALS / 2 >= 3, LEAF_VALS <= 65535 (the
@@ -40,7 +41,8 @@ Theorem btree_configurations_meet_hypotheses :
   (C.p128_inode_vals = C.p128_leaf_vals / 2 /\ 3 <= C.p128_inode_vals /\ C.p128_leaf_vals <= 65535) /\
   (C.p256_inode_vals = C.p256_leaf_vals / 2 /\ 3 <= C.p256_inode_vals /\ C.p256_leaf_vals <= 65535) /\
   (C.p4096_inode_vals = C.p4096_leaf_vals / 2 /\ 3 <= C.p4096_inode_vals /\ C.p4096_leaf_vals <= 65535).
-Proof. repeat split; vm_compute; congruence. Qed.
+Proof. repeat split; vm_compute; congruence.
+Qed.
 Print Assumptions btree_configurations_meet_hypotheses.
 
 Ltac page_helpers fmax fmin fcan ffull :=
@@ -119,5 +121,6 @@ Theorem leaf_btree_max_vals_select :
     L.leaf_zix_btree_max_vals_p128 il = (if il =? 0 then C.p128_inode_vals else C.p128_leaf_vals) /\
     L.leaf_zix_btree_max_vals_p256 il = (if il =? 0 then C.p256_inode_vals else C.p256_leaf_vals) /\
     L.leaf_zix_btree_max_vals_p4096 il = (if il =? 0 then C.p4096_inode_vals else C.p4096_leaf_vals).
-Proof. intros il _. repeat split; match goal with |- ?f il = _ => unfold f end; destruct (il =? 0); reflexivity. Qed.
+Proof. intros il _. repeat split; match goal with |- ?f il = _ => unfold f end; destruct (il =? 0); reflexivity.
+Qed.
 Print Assumptions leaf_btree_max_vals_select.
